@@ -46,6 +46,8 @@ FEATURE_TREES = [
     # a package named like the root directory itself, and one level deeper a package named like its parent
     # (top/top, top/top/sub/sub): parent-relative spellings begin with the name the prefix ends in
     {"top": "d", "top/__init__.py": "f", "top/m.py": "f", "top/n.py": "f", "top/sub": "d", "top/sub/k.py": "f", "top/sub/sub": "d", "top/sub/sub/j.py": "f", "z.py": "f"},
+    # names that begin or end with the text of the file suffix
+    {"pkg": "d", "pkg/sub": "d", "pkg/sub/pyhelp.py": "f", "pkg/sub/happy.py": "f", "pkg/subhelp.py": "f", "pkg/pyx": "d", "pkg/pyx/numpy.py": "f", "py.py": "f"},
     {"p": "d", "p/__init__.py": "f", "p/q": "d", "p/q/r": "d", "p/q/r/s": "d", "p/q/r/s/t.py": "f", "p/u.py": "f", "v": "d", "v/w.py": "f", "v/empty": "d"},
 ]
 
